@@ -183,6 +183,24 @@ const INCS_BAD: [&str; 3] = ["0", "1000000001", "4294967295"];
 
 pub fn generate(rng: &mut Rng, thorough: bool) -> Vec<String> {
     let mut v = Vec::new();
+    // (0) the operation's default largest unit as Duration::round sees it: every unit as the duration's largest
+    // non-zero field x omitted / auto / explicit largest unit x omitted / smaller smallest unit, result compared in full
+    const UN: [&str; 10] = ["year", "month", "week", "day", "hour", "minute", "second", "millisecond", "microsecond", "nanosecond"];
+    for idx in 3..10usize {
+        for second in idx..10usize {
+            for sign in [1i128, -1] {
+                let mut f = [0i128; 10];
+                f[idx] = sign * *rng.pick(&[1i128, 59, 1500, 86_400]);
+                if second != idx { f[second] = sign * *rng.pick(&[1i128, 999, 1500]); }
+                let fs = f.iter().map(|x| x.to_string()).collect::<Vec<_>>().join(" ");
+                for lu in ["-", "auto", UN[idx], UN[idx.saturating_sub(1).max(3)]] {
+                    for su in ["-", "nanosecond", UN[second]] {
+                        v.push(format!("du_round {fs} {lu} {su} - {}", rng.pick(&["-", "trunc", "halfExpand"])));
+                    }
+                }
+            }
+        }
+    }
     // (1) hook resolvers: full matrix over the callers' parameter sets
     let callers = [
         ("date", "day", "day"), ("time", "hour", "nanosecond"), ("datetime", "day", "nanosecond"),
